@@ -11,7 +11,7 @@
    (C14_history_only), and the theorems hold for all sufficiently large fuel. *)
 From Coq Require Import ZArith List String Bool.
 From NG Require Import Gen.C14Consts V1.Expr V1.Elems V1.Slide V1.Interp V1.Structured
-                       V1.Interp_proofs V1.Code_proofs V1.Slide_proofs V1.Sim_proofs.
+                       V1.Interp_proofs V1.Code_proofs V1.Slide_proofs V1.Sim_proofs V1.Stack_proofs.
 Import ListNotations.
 Open Scope string_scope.
 Open Scope list_scope.
@@ -42,27 +42,30 @@ Theorem C14_slide_follows_structure :
 Proof. exact lexec_slide. Qed.
 Print Assumptions C14_slide_follows_structure.
 
-(* compiler correctness, whole histories: for every well-formed structured program whose dialog
-   flow has no `do` (any nesting of if/else, while, break, continue, set, user, bot, execute) and
-   EVERY history - following the flow, leaving it, coming back, restarting, bot stop,
-   hide_prev_turn, context updates, events of other types - compute_next_steps on the compiled
-   flow returns exactly what the reference semantics returns (steps, or the Python exception).
-   FULL statement (with subflow calls): Sim_proofs.compile_correct_statement - not proved here;
-   missing: the simulation for a stack of flow states (sws with `flow` elements pushing
-   interrupted callers, and the resume loop of compute_next_state unwinding them in list order).
-   It is tested by the correspondence on every run and evaluated on a nested instance below. *)
-Theorem C14_compile_correct_partial :
+(* COMPILER CORRECTNESS, whole histories: for every well-formed structured program of the subset
+   (user / bot / execute / set / if-else / while with break and continue / do subflow, any
+   nesting, subflows calling subflows) and EVERY history - following the flow, leaving it, coming
+   back, restarting, bot stop, hide_prev_turn, context updates, events of other types -
+   compute_next_steps on the compiled flows returns exactly what the reference semantics
+   returns: the next steps, or the Python exception.
+   Proof: simulation between the interpreter's State and the specification's state.  Inside one
+   flow body: kmatch (source continuation <-> code position).  Across flows: the call stack of
+   the specification <-> a chain of flow states (one ACTIVE at the statement waited on, the
+   callers INTERRUPTED by their callee, at their continuation), sitting in State.flow_states in
+   ANY order among dead ones; `do` pushes (sws_gen), the resume loop unwinds completed and
+   aborted stacks wherever the flow states sit (resume_unwind, abort_unwind). *)
+Theorem C14_compile_correct :
   forall p fuel hist r,
-    wf_prog p = true -> nodo_block (p_main p) = true ->
+    wf_prog p = true ->
     next_steps fuel p hist = r -> r <> Fuel ->
     exists F, forall f, (F <= f)%nat -> steps_now f (compile_prog p) hist = r.
-Proof. exact (fun p fuel hist r => compile_correct_partial p fuel hist r C14_start_marks_completed_in_source). Qed.
-Print Assumptions C14_compile_correct_partial.
+Proof. exact (compile_correct_full C14_start_marks_completed_in_source C14_call_records_active_only_in_source). Qed.
+Print Assumptions C14_compile_correct.
 
 (* following: when the history has followed the flow up to statement w (continuation k, context
    c built by the sets executed so far) and the next event is the one w waits for, the decided
    step is the statement the structured program blocks on next, with the assignments made on the
-   way (this characterises the SPECIFICATION; with C14_compile_correct_partial it transfers to
+   way (this characterises the SPECIFICATION; with C14_compile_correct it transfers to
    compute_next_steps) *)
 Theorem C14_follow_spec :
   forall fuel p hist w k stk c ev,
@@ -81,18 +84,18 @@ Theorem C14_follow_spec :
 Proof. exact spec_follow. Qed.
 Print Assumptions C14_follow_spec.
 
-(* leaving: a history that has followed the flow up to statement w and continues with an event
-   that w does not wait for yields no step at all *)
-Theorem C14_leave_partial :
+(* leaving: a history that has followed the flow up to statement w (anywhere: inside loops,
+   inside subflows) and continues with an event that w does not wait for yields no step at all *)
+Theorem C14_leave :
   forall p fuel hist w k stk c ev,
-    wf_prog p = true -> nodo_block (p_main p) = true ->
+    wf_prog p = true ->
     follows_to fuel p hist w k stk c ->
     match ev with EvStartAct | EvCtx _ | EvHide => False | _ => True end ->
     string_in (event_type ev) default_triggers = true ->
     wait_match w ev = false ->
     exists F, forall f, (F <= f)%nat -> steps_now f (compile_prog p) (hist ++ [ev]) = Ok [].
-Proof. exact (fun p fuel hist w k stk c ev => leave_partial p fuel hist w k stk c ev C14_start_marks_completed_in_source). Qed.
-Print Assumptions C14_leave_partial.
+Proof. exact (fun p fuel hist w k stk c ev => leave_full p fuel hist w k stk c ev C14_start_marks_completed_in_source C14_call_records_active_only_in_source). Qed.
+Print Assumptions C14_leave.
 
 (* the decision is a function of (flow configs, history) alone: the model threads no state
    between calls (slide's `_active_label*` annotations are written, never read), and its only
@@ -133,7 +136,8 @@ Theorem C14_example_nested :
 Proof. exact (conj (proj1 ex_nodo_hyps) (conj (proj2 ex_nodo_hyps) (conj ex_nodo_follows_to (proj1 ex_nodo_follow)))). Qed.
 Print Assumptions C14_example_nested.
 
-(* ... and the full statement holds on the nested program WITH a subflow call and return *)
+(* ... and an instance of C14_compile_correct evaluated on the nested program WITH a subflow
+   call and return *)
 Theorem C14_example_subflow :
   forall h, In h [ex_hist; ex_hist ++ [EvBot "say s3"]; ex_hist ++ [EvUser "ask zzz"];
                   firstn 3 ex_hist; firstn 5 ex_hist ++ [EvBot "say nothing"]] ->
